@@ -244,6 +244,25 @@ Definition length_spec (o : option str) : option (option F64) :=
   | Some s => omap (fun v => if D.ge v D.eps then Some v else None) (pn_f64_lim coord_lim64 s)
   end.
 
+(* the slider fields that precede any state change *)
+Definition slider_fields_spec (sound : Z) (r : list str) : option SliderPre :=
+  match nth_error r 0, obnd (nth_error r 1) pn_i32 with
+  | Some path, Some repeats_raw =>
+      if repeat_cap <? repeats_raw then None
+      else
+        let repeats := Z.max 0 (repeats_raw - 1) in
+        match length_spec (nth_error r 2),
+              (match nth_error r 5 with
+               | Some s => banks_spec sbi_default (split_on 58 s) true
+               | None => Some sbi_default end) with
+        | Some len, Some bank =>
+            omap (fun nodes => mkSliderPre path repeats len nodes bank)
+                 (node_samples_spec (Z.to_nat (repeats + 2)) bank sound (nth_error r 4) (nth_error r 3))
+        | _, _ => None
+        end
+  | _, _ => None
+  end.
+
 (* [vertices] is scratch: the specification leaves it to the implementation
    (second component of the argument) *)
 Definition line_spec_with (st : HOState) (line : str) (scratch : list PCP) : HOState * res :=
@@ -259,33 +278,19 @@ Definition line_spec_with (st : HOState) (line : str) (scratch : list PCP) : HOS
           | None => (st, Rejected)
           end
       | Some 1 =>
-          match nth_error r 0, obnd (nth_error r 1) pn_i32 with
-          | Some path, Some repeats_raw =>
-              if repeat_cap <? repeats_raw then (st, Rejected)
+          match slider_fields_spec (f_sound f) r with
+          | Some pre =>
+              let '(cps, ok) := path_spec (spre_point_str pre) (f_pos f) in
+              if ok then
+                accept (mkHO (ho_last st) [] scratch (ho_objects st) (ho_mode st)) f
+                       (KSlider (mkSlider (f_pos f) (starts_combo st t) (combo_offset_spec t)
+                                          (ho_mode st) (ho_curve st ++ cps) (spre_len pre)
+                                          (spre_nodes pre) (spre_repeat pre) D.one))
+                       (spre_bank pre)
               else
-                let repeats := Z.max 0 (repeats_raw - 1) in
-                match length_spec (nth_error r 2),
-                      (match nth_error r 5 with
-                       | Some s => banks_spec sbi_default (split_on 58 s) true
-                       | None => Some sbi_default end) with
-                | Some len, Some bank =>
-                    match node_samples_spec (Z.to_nat (repeats + 2)) bank (f_sound f)
-                                            (nth_error r 4) (nth_error r 3) with
-                    | Some nodes =>
-                        let '(cps, ok) := path_spec path (f_pos f) in
-                        if ok then
-                          accept (mkHO (ho_last st) [] scratch (ho_objects st) (ho_mode st)) f
-                                 (KSlider (mkSlider (f_pos f) (starts_combo st t) (combo_offset_spec t)
-                                                    (ho_mode st) (ho_curve st ++ cps) len nodes repeats D.one))
-                                 bank
-                        else
-                          (* D3: the points of the well-formed leading segments stay in curve_points *)
-                          (mkHO (ho_last st) (ho_curve st ++ cps) scratch (ho_objects st) (ho_mode st), Rejected)
-                    | None => (st, Rejected)
-                    end
-                | _, _ => (st, Rejected)
-                end
-          | _, _ => (st, Rejected)
+                (* D3: the points of the well-formed leading segments stay in curve_points *)
+                (mkHO (ho_last st) (ho_curve st ++ cps) scratch (ho_objects st) (ho_mode st), Rejected)
+          | None => (st, Rejected)
           end
       | Some 2 =>
           match obnd (nth_error r 0) pn_f64, extras_spec (nth_error r 1) with
